@@ -324,6 +324,11 @@ func (g *PG) Gen(t *Ty, d int, letOK bool) *ref.Node {
 	if g.chance(g.D.Fault) {
 		return g.fault(t, d, letOK)
 	}
+	if len(g.D.Host) > 0 && g.chance(0.12) {
+		if h := g.hostOf(t); h != nil {
+			return h
+		}
+	}
 	if g.chance(g.D.Bind) {
 		return g.wrap(t, d, letOK)
 	}
